@@ -173,6 +173,25 @@ def flags(F, R):
                 if not (init1 and bound): ok = False; why = 'loop over regions does not run from 1 to nr_regions-1'
             writes = [n for n in f.nodes if n and n['k'] == 'asg' and f.base_member(n['lhs'])]
             if writes: ok = False; why = 'is_flag_active writes a data member'
+            # every region takes part in the fold: the loop may be left before the bound only when the accumulated value is
+            # absorbing for the operator of THIS instantiation (true for OR, false for AND)
+            from rules_struct import cond_facts
+            ta_ = f.targs() or []
+            opn = str(ta_[1]) if len(ta_) > 1 else ''
+            absorbing = True if 'Flag_OR' in opn or 'logical_or' in opn else False if 'Flag_AND' in opn or 'logical_and' in opn else None
+            for p in f.paths(edge_bound=2):
+                if f.aborts(p): continue
+                last_bound = None; resfact = None
+                for bi, b in enumerate(p[:-1]):
+                    for c, t in cond_facts(f, f.bmap[b], p[bi + 1]):
+                        if c['k'] == 'bin' and c['op'] == '<' and loopvars and (f.nodes[c['lhs']] or {}).get('n') == loopvars[0]: last_bound = t
+                        elif c['k'] == 'ref' and c.get('dk') == 'local': resfact = t
+                        else:
+                            cid = next((k for k, x in enumerate(f.nodes) if x is c), None)
+                            if cid is not None and any(f.nodes[d] and f.nodes[d]['k'] == 'ref' and f.nodes[d].get('dk') == 'local' for d in dependency_closure(f, cid)) and resfact is None: resfact = 'unknown'
+                if last_bound is True:     # the function returned although the bound test last said "another region to go"
+                    if absorbing is None or resfact != absorbing:
+                        ok = False; why = 'the fold over the regions is left early although the accumulated value (%s) is not absorbing for %s: the remaining regions are not consulted' % (resfact, opn.split('::')[-1] or 'the operator')
             R.ob('C17.pure', ok, {'func': f.q})
             if not ok: R.find('C17.pure', f, 'fold', why)
         # ---- backmp11: OR / AND visitor predicates are complementary and the traversal is over the active configuration
@@ -1671,3 +1690,53 @@ def deferslice(F, R):
                 R.ob('C05.defer-slice', False, {'back_end': be, 'event': Facts.short(ev, 40), 'trigger': Facts.short(te, 40)})
                 R.find('C05.defer-slice', f, 'base-trigger:' + be, 'a Defer row with trigger %s is reached with the derived event %s (%s): Defer stores a copy of the %s part only, the re-offered event no longer matches rows on %s and its payload is lost' % (Facts.short(te, 40), Facts.short(ev, 40), be, Facts.short(te, 40), Facts.short(ev, 40)), instance='%s / %s' % (Facts.short(row, 120), Facts.short(ev, 40)))
             break
+
+@rule('deferresult')
+def deferresult(F, R):
+    """C05.defer-result: a transition whose action defers the event reports HANDLED_DEFERRED - never HANDLED_TRUE, which would start a
+    new deferral sequence and re-offer the event at once (endlessly, while the deferring state stays active).  Which actions defer is
+    declared by the front-end: a functor with a `deferring_action` typedef (front::Defer has one) or an ActionSequence_ whose
+    `some_deferring_actions` is true.  Checked where each back-end turns the action into a result: backmp11
+    invoke_action_functor<Action>::execute, back / back11 the functor rows' action_call."""
+    def defers(t):
+        rec = F.rec_by_type(strip_cvref(t))
+        if rec is None: return None
+        if 'deferring_action' in rec['tds']: return True
+        if 'some_deferring_actions' in rec['tds']: return 'bool_<true>' in F.strs[rec['tds']['some_deferring_actions']]
+        return False
+    for f in F.funcs:
+        if not f.blocks: continue
+        act = None; where = None
+        if f.cls == 'invoke_action_functor' and f.n == 'execute' and f.file.startswith('boost/msm/backmp11/'):
+            ca = f.cls_args('invoke_action_functor') or []
+            act = str(ca[0]) if ca else None; where = 'backmp11'
+        elif f.n == 'action_call' and f.file == 'boost/msm/front/functor_row.hpp':
+            rec = F.rec_by_type(F.class_type(f))
+            act = F.strs[rec['tds']['Action']] if rec and 'Action' in rec['tds'] else None; where = 'functor-row'
+        if not act: continue
+        d = defers(act)
+        if d is None: continue
+        rets = set()
+        def value_of(nid, depth=0):
+            """the enumerator a return expression yields in THIS instantiation (conditional operators on constant conditions are folded)"""
+            n = f.nodes[nid] if nid else None
+            while n and n['k'] in ('icast', 'cast', 'paren'): nid = n['e']; n = f.nodes[nid]
+            if n is None or depth > 4: return '?'
+            if n['k'] == 'cond':
+                c = f.eval_const(n['c'])
+                if c is None: return '{%s|%s}' % (value_of(n['a'], depth + 1), value_of(n['b'], depth + 1))
+                return value_of(n['a'] if c else n['b'], depth + 1)
+            if n['k'] == 'ref' and n.get('dk') == 'enum' and n['n'].startswith('HANDLED_'): return n['n']
+            c = n.get('v') if n['k'] == 'ref' and 'v' in n else f.eval_const(nid)
+            return {4: 'HANDLED_DEFERRED', 1: 'HANDLED_TRUE', 0: 'HANDLED_FALSE', 2: 'HANDLED_GUARD_REJECT'}.get(c, f.expr(nid))
+        for n in f.nodes:
+            if n and n['k'] == 'ret' and n.get('e'):
+                v = value_of(n['e'])
+                rets.add('HANDLED_DEFERRED' if v in ('HANDLED_DEFERRED',) else 'HANDLED_TRUE' if v == 'HANDLED_TRUE' else v)
+        R.seen(f); R.anchor('action-result:' + where)
+        if d: R.anchor('action-result-deferring:' + where)
+        want = {'HANDLED_DEFERRED'} if d else {'HANDLED_TRUE'}
+        ok = rets == want
+        R.ob('C05.defer-result', ok, {'action': Facts.short(act, 70), 'defers': d, 'returns': sorted(rets)})
+        if not ok:
+            R.find('C05.defer-result', f, 'deferring' if d else 'plain', 'action %s %s the event (front-end declaration) but the transition reports %s: %s' % (Facts.short(act, 70), 'defers' if d else 'does not defer', sorted(rets), 'the deferred event is re-offered at once, again and again, while the deferring state is active' if d else 'an event that was consumed is treated as still pending'), instance=Facts.short(act, 160))
